@@ -25,10 +25,40 @@ theorem Mid.sk_eq {d s s1 s2} (h1 : Mid d s s1) (h : s2.sk = s1.sk) : Mid d s s2
   ⟨Wf.of_sk_eq h h1.wf, by rw [h]; exact h1.debt, by rw [h]; exact h1.step⟩
 
 /-- finish a body with a tail call made from an intermediate state -/
-theorem Mid.tail {d c c' s s1} {r : St × Ret} (hm : Mid d s s1) (hg : Good d c' s1 r)
+theorem Mid.tail {d c c' s s1} {r : St × Ret} (hm : Mid d s s1) (hg : GoodO d c' s1 r)
     (hf : exFd c' = none ∨ exFd c' = exFd c) (hi : exId c' = none ∨ exId c' = exId c) (hp : Post s r c) :
-    Good d c s r :=
-  Good.tail' hg hm.step.weaken' hf hi hp
+    GoodO d c s r :=
+  Good.tail' hg hm.step.weaken' hf hi (fun _ => hp)
+
+/-- an intermediate state, unless the run is out of fuel -/
+def MidO (d : Nat → Nat) (s s' : St) : Prop := s'.outOfFuel = true ∨ Mid d s s'
+
+/-- run a procedure from an intermediate state -/
+theorem Mid.call {go} (hgo : GoOk go) {d s s1} (hm : Mid d s s1) (c' : Call) (hpre : Pre d s1 c')
+    (hf : exFd c' = none) (hi : exId c' = none) : MidO d s (go c' s1).1 := by
+  rcases hgo.2 d c' s1 hpre with hoof | hg
+  · exact Or.inl hoof
+  · exact Or.inr (hm.trans (hg.toMid hf hi))
+
+/-- finish a body with a tail call made from an intermediate state -/
+theorem MidO.tail {go} (hgo : GoOk go) {d c c' s s1} (hm : MidO d s s1) (hpre : Mid d s s1 → Pre d s1 c')
+    (hf : exFd c' = none ∨ exFd c' = exFd c) (hi : exId c' = none ∨ exId c' = exId c)
+    (hp : ∀ r, Post s r c) : GoodO d c s (go c' s1) := by
+  rcases hm with hoof | hm
+  · exact Or.inl (hgo.1 _ _ hoof)
+  · exact hm.tail (hgo.2 d _ _ (hpre hm)) hf hi (hp _)
+
+theorem MidO.good {d c s s'} {ret : Ret} (hm : MidO d s s') (hp : Post s (s', ret) c) : GoodO d c s (s', ret) := by
+  rcases hm with hoof | hm
+  · exact Or.inl hoof
+  · exact Or.inr ⟨hm.wf, hm.debt, hm.step.weaken', hp⟩
+
+/-- continue from an intermediate state with a step that keeps the fuel flag -/
+theorem MidO.bind {d s s1 s2} (hm : MidO d s s1) (ho : s1.outOfFuel = true → s2.outOfFuel = true)
+    (f : Mid d s s1 → MidO d s s2) : MidO d s s2 := by
+  rcases hm with hoof | hm
+  · exact Or.inl (ho hoof)
+  · exact f hm
 
 theorem query?_sk {s : St} {k : Nat} {q : Query} (h : s.query? k = some q) :
     q.key = k ∧ q.sk ∈ s.sk.qs ∧ (k, q.conn) ∈ s.sk.qKC := by
@@ -39,7 +69,7 @@ theorem query?_sk {s : St} {k : Nat} {q : Query} (h : s.query? k = some q) :
 /-! ### `processTimeouts` -/
 
 theorem good_processTimeouts {go} (hgo : GoOk go) {d s} (hpre : Pre d s .processTimeouts) :
-    Good d .processTimeouts s (bodyProcessTimeouts go s) := by
+    GoodO d .processTimeouts s (bodyProcessTimeouts go s) := by
   obtain ⟨hw, hd⟩ := hpre
   unfold bodyProcessTimeouts
   split
@@ -65,16 +95,16 @@ theorem good_processTimeouts {go} (hgo : GoOk go) {d s} (hpre : Pre d s .process
           rw [this]; exact server_ids_nodup hw), h1]
       generalize ((s.modQuery key fun q => { q with timeouts := q.timeouts + 1 }).incFailures c.srv q.usingTcp) = s1
         at hsk1
-      have hg1 := hgo d (.requeue key .timeout true none false) s1
-        ⟨by rw [hsk1]; exact WfS.weaken_hole hw, by unfold Sk.Idx; rw [hsk1]; exact hki, by rw [hsk1]; exact hd⟩
-      have hm1 : Mid d s (go (.requeue key .timeout true none false) s1).1 :=
-        (Mid.of_sk_eq hw hd hsk1).trans (hg1.toMid rfl rfl)
-      exact hm1.tail (hgo d _ _ ⟨hm1.wf, hm1.debt⟩) (Or.inl rfl) (Or.inl rfl) trivial
+      have hm1 : MidO d s (go (.requeue key .timeout true none false) s1).1 :=
+        (Mid.of_sk_eq hw hd hsk1).call hgo (.requeue key .timeout true none false)
+          ⟨by rw [hsk1]; exact WfS.weaken_hole hw, by unfold Sk.Idx; rw [hsk1]; exact hki, by rw [hsk1]; exact hd⟩
+          rfl rfl
+      exact hm1.tail hgo (fun hm => ⟨hm.wf, hm.debt⟩) (Or.inl rfl) (Or.inl rfl) (fun _ => trivial)
 
 /-! ### `flushRequeue` -/
 
 theorem good_flushRequeue {go} (hgo : GoOk go) {d s} (hpre : Pre d s .flushRequeue) :
-    Good d .flushRequeue s (bodyFlushRequeue go s) := by
+    GoodO d .flushRequeue s (bodyFlushRequeue go s) := by
   obtain ⟨hw, hd⟩ := hpre
   unfold bodyFlushRequeue
   split
@@ -83,12 +113,11 @@ theorem good_flushRequeue {go} (hgo : GoOk go) {d s} (hpre : Pre d s .flushReque
     have hm0 : Mid d s { s with requeueArr := rest } := Mid.of_sk_eq hw hd rfl
     simp only
     split
-    · exact hm0.tail (hgo d _ _ ⟨hm0.wf, hm0.debt⟩) (Or.inl rfl) (Or.inl rfl) trivial
+    · exact hm0.tail (hgo.2 d _ _ ⟨hm0.wf, hm0.debt⟩) (Or.inl rfl) (Or.inl rfl) trivial
     · rename_i x key hfind
       have hki : key ∈ s.sk.idx := List.mem_map.mpr ⟨(x, key), List.mem_of_find?_eq_some hfind, rfl⟩
-      have hg1 := hgo d (.sendQuery srv key) { s with requeueArr := rest } ⟨hm0.wf, hki, hm0.debt⟩
-      have hm1 := hm0.trans (hg1.toMid rfl rfl)
-      exact hm1.tail (hgo d _ _ ⟨hm1.wf, hm1.debt⟩) (Or.inl rfl) (Or.inl rfl) trivial
+      have hm1 := hm0.call hgo (.sendQuery srv key) ⟨hm0.wf, hki, hm0.debt⟩ rfl rfl
+      exact hm1.tail hgo (fun hm => ⟨hm.wf, hm.debt⟩) (Or.inl rfl) (Or.inl rfl) (fun _ => trivial)
 
 /-! ### `reactions` -/
 
@@ -100,7 +129,7 @@ def newTokSt (s : St) : St :=
 theorem sk_newTokSt (s : St) : (newTokSt s).sk = s.sk.newTok := rfl
 
 theorem good_reactions {go} (hgo : GoOk go) {d l s} (hpre : Pre d s (.reactions l)) :
-    Good d (.reactions l) s (bodyReactions go l s) := by
+    GoodO d (.reactions l) s (bodyReactions go l s) := by
   obtain ⟨hw, hd⟩ := hpre
   unfold bodyReactions
   split
@@ -109,7 +138,7 @@ theorem good_reactions {go} (hgo : GoOk go) {d l s} (hpre : Pre d s (.reactions 
     split
     · exact Good.of_sk_eq hw hd rfl trivial
     · -- the state after reaction `i`
-      have hmid : Mid d s (match s.reactions.find? (·.1 == i) with
+      have hmid : MidO d s (match s.reactions.find? (·.1 == i) with
           | none => s
           | some (_, r) =>
             if r.kind == "cancel" then (go .cancel (s.emit "react(cancel)")).1
@@ -122,25 +151,25 @@ theorem good_reactions {go} (hgo : GoOk go) {d l s} (hpre : Pre d s (.reactions 
               s.emit s!"ret({tok},{st.name})"
             else s) := by
         split
-        · exact Mid.refl hw hd
+        · exact Or.inr (Mid.refl hw hd)
         · split
-          · have hg := hgo d .cancel (s.emit "react(cancel)") ⟨Wf.of_sk_eq rfl hw, hd⟩
-            exact (Mid.of_sk_eq (s' := s.emit "react(cancel)") hw hd rfl).trans (hg.toMid rfl rfl)
+          · exact (Mid.of_sk_eq (s' := s.emit "react(cancel)") hw hd rfl).call hgo .cancel
+              ⟨Wf.of_sk_eq rfl hw, hd⟩ rfl rfl
           · split
             · rename_i r _ _ _
-              show Mid d s ((go (.sendNolock none false false { name := r.name, qtype := r.qtype }
+              show MidO d s ((go (.sendNolock none false false { name := r.name, qtype := r.qtype }
                 (.user (10000 + s.reactSeq)) r.react) (newTokSt s)).1.emit _)
               have hsk1 := sk_newTokSt s
               generalize newTokSt s = s1 at hsk1
               have hm1 : Mid d s s1 :=
                 ⟨by unfold Wf; rw [hsk1]; exact wf_newTok hw, by rw [hsk1]; exact debt_newTok hw hd,
                  by rw [hsk1]; exact step_newTok⟩
-              have hg := hgo d (.sendNolock none false false { name := r.name, qtype := r.qtype }
-                (.user (10000 + s.reactSeq)) r.react) s1
-                ⟨hm1.wf, by rw [hsk1]; exact ownerFree_newTok hw, hm1.debt⟩
-              exact (hm1.trans (hg.toMid rfl rfl)).sk_eq rfl
-            · exact Mid.refl hw hd
-      exact hmid.tail (hgo d _ _ ⟨hmid.wf, hmid.debt⟩) (Or.inl rfl) (Or.inl rfl) trivial
+              have hm2 := hm1.call hgo (.sendNolock none false false { name := r.name, qtype := r.qtype }
+                (.user (10000 + s.reactSeq)) r.react)
+                ⟨hm1.wf, by rw [hsk1]; exact ownerFree_newTok hw, hm1.debt⟩ rfl rfl
+              exact hm2.bind (fun h => by simpa using h) (fun hm => Or.inr (hm.sk_eq rfl))
+            · exact Or.inr (Mid.refl hw hd)
+      exact hmid.tail hgo (fun hm => ⟨hm.wf, hm.debt⟩) (Or.inl rfl) (Or.inl rfl) (fun _ => trivial)
 
 /-! ### `cancel` -/
 
@@ -169,22 +198,21 @@ theorem mid_of_same {d s s'} (hd : DebtOk none d s.sk) (hw' : Wf s') (hf : s'.sk
     (fun fd q hm _ => ⟨q, by rw [hu]; exact hm, fun _ hx => hx⟩)⟩
 
 theorem good_cancel {go} (hgo : GoOk go) {d s} (hpre : Pre d s .cancel) :
-    Good d .cancel s (bodyCancel go s) := by
+    GoodO d .cancel s (bodyCancel go s) := by
   obtain ⟨hw, hd⟩ := hpre
   unfold bodyCancel
-  have hmid : Mid d s (if s.all.isEmpty then s else
+  have hmid : MidO d s (if s.all.isEmpty then s else
       let s := { s with listCopy := s.all :: s.listCopy, all := [] }
       let (s, _) := go (.cancelLoop .cancelled false) s
       { s with listCopy := s.listCopy.drop 1 }) := by
     split
-    · exact Mid.refl hw hd
+    · exact Or.inr (Mid.refl hw hd)
     · simp only
       have hm1 : Mid d s { s with listCopy := s.all :: s.listCopy, all := [] } :=
         mid_of_same hd (show WfS s.sk.pushLC none from wf_pushLC hw) rfl rfl rfl rfl rfl rfl rfl rfl
-      have hg := hgo d (.cancelLoop .cancelled false) _ ⟨hm1.wf, hm1.debt⟩
-      have hm2 := hm1.trans (hg.toMid rfl rfl)
-      refine hm2.trans ?_
+      have hm2 := hm1.call hgo (.cancelLoop .cancelled false) ⟨hm1.wf, hm1.debt⟩ rfl rfl
+      refine hm2.bind (fun h => h) (fun hm2 => Or.inr (hm2.trans ?_))
       exact mid_of_same hm2.debt (show WfS (Sk.popLC _) none from wf_popLC hm2.wf) rfl rfl rfl rfl rfl rfl rfl rfl
-  exact hmid.tail (hgo d _ _ ⟨hmid.wf, hmid.debt⟩) (Or.inl rfl) (Or.inl rfl) trivial
+  exact hmid.tail hgo (fun hm => ⟨hm.wf, hm.debt⟩) (Or.inl rfl) (Or.inl rfl) (fun _ => trivial)
 
 end Cares.Chan
